@@ -31,14 +31,14 @@ RULE = ('seeded generation of (dense-time past or pastified bounded-future speci
 ASSUMPTIONS = ['expected function = real dense-time offline monitor on the whole signals (C04 checks it against RefDense); '
                'RefDense arbitrates', 'a concatenated output covers [first stamp, last stamp]; at a repeated stamp the later '
                'sample wins; value at an instant = last sample not after it',
-               'all sensors start at time 0 (envelope of F14a, which affects the offline oracle)',
+               'when a bounded operator has an operand whose sensors do not start at 0 (F14a, affects the offline oracle) only the agreement between schedules is checked',
                'envelope rules exclude the regions of the open known findings']
 REAL = common.REAL_ALL
 STUBS = common.STUBS_ALL
-PROBES = ['cut_at_window_edge', 'empty_batch', 'pastified', 'skewed_schedule', 'one_sample_batches', 'schedules_enumerated_exhaustively']
+PROBES = ['sensors_start_at_different_instants', 'cut_at_window_edge', 'empty_batch', 'pastified', 'skewed_schedule', 'one_sample_batches', 'schedules_enumerated_exhaustively']
 INTERLEAVING_MEASURE = 'distinct chunking patterns (per variable: tuple of batch sizes per update)'
 ENVELOPE_RULES = ['memory-past-above-delayed (F08)',
-                  'all sensors start at 0 (F14a, offline oracle)']
+                  'bounded-op-nonzero-start (F14a): offline comparison skipped, schedules still compared']
 
 ONLINE_OPS = set(common.DENSE_PAST_OPS)
 ONLINE_FUTURE_OPS = ONLINE_OPS | {'eventually_b', 'always_b'}
@@ -79,8 +79,9 @@ def _gen(rng, tier):
         return None
     pastify = any(x[0] in sg.FUTURE_OPS for x in sg.walk(ast)) or rng.random() < 0.1
     signals = {}
+    late = rng.random() < 0.3          # sensors that come up at different instants
     for v in vars_:
-        s, _ = world.gen_dense_signal(rng, rng.randint(2, 8), start_q=0, max_gap_q=rng.choice([2, 4, 6]))
+        s, _ = world.gen_dense_signal(rng, rng.randint(2, 8), start_q=(rng.randint(0, 6) if late else 0), max_gap_q=rng.choice([2, 4, 6]))
         signals[v] = s
     text = common.dense_text(ast, sg.Spelling(rng))
     # skewed schedules: per variable independent cut points, realised as rounds
@@ -194,6 +195,12 @@ def run(sc):
         r.violate('offline-raised', spec=text, signals=signals, **e.describe())
         return r
     off_f = D.from_samples(off)
+    # the offline oracle is only used outside the region of F14a; the schedules are compared with each other in any case
+    offline_usable = not common.bounded_op_nonzero_start(ast, signals)
+    s_true = max(signals[v][0][0] for v in used)
+    if len(set(signals[v][0][0] for v in vars_)) > 1:
+        r.probes['sensors_start_at_different_instants'] += 1
+        r.faults['sensor_start_skew'] += 1
     scheds, exhaustive = schedules(sc)
     if exhaustive:
         r.probes['schedules_enumerated_exhaustively'] += 1
@@ -247,8 +254,8 @@ def run(sc):
         lo, hi = fn[0][0], fn[-1][0]
         r.sim_time += hi - lo
         # compare with offline shifted by h on the covered span (where the offline function is defined)
-        s0 = off_f[0][0] if off_f else float('inf')
-        pts = [t for t in D.check_points([fn, [(p[0] + h, p[1]) for p in off_f]], lo, hi) if t - h >= s0]
+        s0 = max(off_f[0][0], s_true) if off_f else float('inf')
+        pts = [t for t in D.check_points([fn, [(p[0] + h, p[1]) for p in off_f]], lo, hi) if t - h >= s0] if offline_usable else []
         for t in pts:
             iv = D.at(fn, t)
             ov = D.at(off_f, t - h)
